@@ -167,7 +167,7 @@ def refEval {V S} (prim : Prim V S) (e : E V) (target : V) (s : S) : Except RefE
     hierarchy (`ExcFacts`), as the model of the loop does. -/
 def docCaught : Kind → List String
   | .getattr => ["AttributeError"]
-  | .getitem => ["KeyError", "IndexError", "TypeError"]
+  | .getitem => ["KeyError", "IndexError", "TypeError", "ValueError"]   -- ValueError: `xs[::0]`
   | .bin _ | .un _ => ["TypeError", "ZeroDivisionError", "OverflowError", "ValueError"]
   | _ => []
 
